@@ -7,9 +7,14 @@ pub(crate) fn remove_insignificant_whitespace(xot: &mut Xot, node: Node) {
             to_remove.push(descendant);
         }
     }
+    // only the collected nodes are to disappear: removing one of them must not
+    // merge text nodes that happen to be next to it
+    let text_consolidation = xot.text_consolidation;
+    xot.text_consolidation = false;
     for node in to_remove {
         xot.remove(node).unwrap();
     }
+    xot.text_consolidation = text_consolidation;
 }
 
 fn is_whitespace(text: &str) -> bool {
